@@ -1125,15 +1125,8 @@ fn hex_ids(inc: &Incoming) -> Option<(Option<String>, Option<String>, bool)> {
 }
 
 /// Partial incoming ids are only used where no trace is active; elsewhere the node pushes both ids.
-fn effective_incoming(w: &World, st: &Strand, inc: &Incoming) -> Incoming {
+fn effective_incoming(_w: &World, st: &Strand, inc: &Incoming) -> Incoming {
     match inc {
-        // Under the sampled-trace filter half a header is only pushed with the sampled bit set. That filter asks the
-        // active traceparent's flag whatever else the traceparent holds, so with `-00` it would drop what is emitted
-        // under the half header - the root of a new trace included, sampler verdict or not. The property does not
-        // say what an unsampled flag on a header that names no trace means, so that combination is not judged.
-        Incoming::Header { text } if w.in_sampled_filter && !st.in_trace() && is_half(text) && text.ends_with("-00") => Incoming::Header {
-            text: format!("{}-01", &text[..text.len() - 3]),
-        },
         Incoming::Ids { trace, span, repr, part } if *part != 0 && st.in_trace() => Incoming::Ids {
             trace: *trace,
             span: *span,
@@ -2057,8 +2050,8 @@ fn posthoc(w: &World, focus: &'static str) {
     for (eid, strand, es, ei, unsampled) in &l.events {
         let recs: Vec<&Rec> = l.recs.iter().filter(|r| !r.is_span && r.eid == Some(*eid)).collect();
         if l.events_under_half.contains(eid) {
-            // directly under a pushed half header: emitted like anything outside a trace (the combination the
-            // sampled-trace filter would drop is not generated); which of the header's ids it carries is not judged
+            // directly under a pushed half header: emitted like anything outside a trace, whatever the header's flags
+            // say (an invalid traceparent is no trace); which of the header's ids it carries is not judged
             if recs.len() != 1 && !dead_strand(*strand) {
                 v.push((c04, "event_count", format!("event {eid} (under a pushed half header) was recorded {} times", recs.len())));
             }
